@@ -67,9 +67,16 @@
 
    Bug names a seeded fault used to show that the properties are not vacuous
    (the same faults are applied to the real code as mutations):
-     "drop_part" "ack_first" "count_short" "no_broadcast" "skip_validate" "local_remote" *)
+     "drop_part" "ack_first" "count_short" "no_broadcast" "skip_validate" "local_remote"
+     "last_response" (the writer synchronizer as written before its fix: it forwarded the LAST
+                      response of a cycle, so a leaseholder's error was lost when another
+                      leaseholder answered after it - genuine defect found by this check)
+
+   MayFail = TRUE lets a leaseholder refuse a commit (LocalCommitFail); used by the exhaustive
+   runs for AckNeverHidesFailure, FALSE in the generators (on the real code a refusal is reached
+   by the harness's directed script: a commit whose range runs into stored data). *)
 EXTENDS Integers, FiniteSets, Sequences, TLC
-CONSTANTS NNodes, Groups, HasFree, T, MaxLen, MaxId, MaxCommits, Writers, SkipAbsentPeers, Bug
+CONSTANTS NNodes, Groups, HasFree, T, MaxLen, MaxId, MaxCommits, Writers, SkipAbsentPeers, MayFail, Bug
 
 Node == 1..NNodes
 Free == 0
@@ -105,7 +112,8 @@ NoWriter == [open |-> FALSE, g |-> 1, keys |-> {}, start |-> 0, sync |-> FALSE, 
              phase |-> "idle", seq |-> 0, nc |-> 0,
              hwm |-> [x \in Groups |-> -1], n |-> [x \in Groups |-> 0], ins |-> [x \in Groups |-> FALSE],
              gbuf |-> {}, lbuf |-> [x \in Node |-> {}],
-             q |-> [x \in Holders |-> <<>>], resp |-> {}, cseq |-> [x \in Holders |-> 0], acked |-> 0]
+             q |-> [x \in Holders |-> <<>>], resp |-> {}, cseq |-> [x \in Holders |-> 0], acked |-> 0,
+             failed |-> {}, err |-> FALSE]
 NoIter == [open |-> FALSE, g |-> 1, keys |-> {}, a |-> 0, b |-> 0, pend |-> {}, acc |-> {}]
 
 Zero == [c \in Stored |-> [t \in Even |-> 0]]
@@ -122,10 +130,12 @@ Has(c, t) == single[c][t] # 0
 Samples(c) == {t \in Even : Has(c, t)}
 Inside(d, t) == d[1] <= t /\ t < d[2]
 Overlap(d, lo, hi) == d[1] < hi /\ lo < d[2]
-RECURSIVE Reach(_, _)
-Reach(t, ds) == IF \E d \in ds : d[1] = t THEN Reach((CHOOSE d \in ds : d[1] = t)[2], ds) ELSE t
+\* end of the index domain containing t. (CesiumStore lets a data-only writer run across
+\* ADJACENT index domains; real cesium refuses some of those shapes - observed here with
+\* index domains written out of time order - so this model keeps data-only writes inside
+\* ONE index domain: pinned, conservative.)
 EffEnd(g, t) == IF \E d \in sdom[Idx(g)] : Inside(d, t)
-                THEN Reach((CHOOSE d \in sdom[Idx(g)] : Inside(d, t))[2], sdom[Idx(g)]) ELSE t
+                THEN (CHOOSE d \in sdom[Idx(g)] : Inside(d, t))[2] ELSE t
 RECURSIVE NthSet(_, _)
 NthSet(S, k) == IF k = 0 \/ S = {} THEN {} ELSE {Min(S)} \cup NthSet(S \ {Min(S)}, k - 1)
 
@@ -147,7 +157,7 @@ OpenWriterCore(w, g, keys, s, sync, auto) ==
      ELSE /\ keys \cap OpenKeys = {}
           /\ \A c \in keys \cap Stored : \A d \in sdom[c] : ~Inside(d, s)    \* no open conflict (pinned)
           /\ wr' = [wr EXCEPT ![w] = [NoWriter EXCEPT !.open = TRUE, !.g = g, !.keys = keys, !.start = s,
-                                                      !.sync = sync, !.auto = auto,
+                                                      !.sync = sync, !.auto = auto, !.failed = wr[w].failed,
                                                       !.hwm = [x \in Groups |-> s - 1]]]
           /\ res' = "ok" /\ UNCHANGED <<lease, meta, single, sdom, local, it, nextId>>
 \* generated scripts make client calls only when nothing is in flight (replayable call by call)
@@ -194,7 +204,7 @@ DomAfter(w, hw, trs) ==
 Msg(kind, seq, trs) == [kind |-> kind, seq |-> seq, trs |-> trs]
 
 WriteGuard(w, gs, fr, times) ==
-  /\ wr[w].open /\ wr[w].phase = "idle" /\ ~it.open /\ nextId <= MaxId
+  /\ wr[w].open /\ wr[w].phase = "idle" /\ ~wr[w].err /\ ~it.open /\ nextId <= MaxId
   /\ times # {} /\ Cardinality(times) <= MaxLen
   /\ gs \subseteq GroupsIn(wr[w].keys) /\ (fr => "F" \in wr[w].keys)
   /\ (gs # {} \/ fr)
@@ -251,7 +261,7 @@ WriteAck(w) ==
   /\ UNCHANGED <<lease, meta, single, sdom, local, it, nextId, res>>
 
 CommitReq(w) ==
-  /\ wr[w].open /\ wr[w].phase = "idle" /\ ~it.open /\ ~wr[w].auto /\ wr[w].nc < MaxCommits
+  /\ wr[w].open /\ wr[w].phase = "idle" /\ ~wr[w].err /\ ~it.open /\ ~wr[w].auto /\ wr[w].nc < MaxCommits
   /\ LET seq == wr[w].seq + 1
          w2 == [wr[w] EXCEPT !.seq = seq, !.nc = @ + 1, !.phase = "waitC", !.resp = {}, !.gbuf = {},
                              !.ins = [g \in Groups |-> @[g] \/ g \in GroupsWith(wr[w].gbuf)],
@@ -270,15 +280,29 @@ LocalCommit(w, n) ==
      /\ local' = IF n = Free THEN local ELSE [local EXCEPT ![n] = Apply(@, wr[w].lbuf[n])]
   /\ UNCHANGED <<lease, meta, single, sdom, it, nextId, res>>
 
+\* A leaseholder may REFUSE a commit (cesium: the range runs into stored data, ...): nothing
+\* is committed there, its response carries the error. (The ghost store is not told: scripts
+\* with a refusal are judged on the acknowledgement only - AckNeverHidesFailure.)
+LocalCommitFail(w, n) ==
+  /\ MayFail /\ n # Free /\ wr[w].q[n] # <<>> /\ HeadOf(w, n).kind = "commit" /\ wr[w].lbuf[n] # {}
+  /\ wr' = [wr EXCEPT ![w].q[n] = Tail(@), ![w].resp = @ \cup {n}, ![w].failed = @ \cup {n}]
+  /\ UNCHANGED <<lease, meta, single, sdom, local, it, nextId, res>>
+
+\* the synchronizer releases ONE response per cycle. As written before the fix it forwarded the
+\* LAST response (Bug = "last_response"): the error of an earlier one was lost.
 CommitAck(w) ==
   /\ wr[w].phase = "waitC" /\ Fulfilled(w)
-  /\ wr' = [wr EXCEPT ![w].phase = "idle", ![w].resp = {}, ![w].acked = wr[w].seq]
-  /\ UNCHANGED <<lease, meta, single, sdom, local, it, nextId, res>>
+  /\ \E lastn \in wr[w].resp :
+       LET e == IF Bug = "last_response" THEN lastn \in wr[w].failed ELSE wr[w].failed # {}
+       IN /\ wr' = [wr EXCEPT ![w].phase = "idle", ![w].resp = {}, ![w].acked = IF e THEN @ ELSE wr[w].seq,
+                              ![w].err = e]
+          /\ res' = IF e THEN "error" ELSE "ok"
+  /\ UNCHANGED <<lease, meta, single, sdom, local, it, nextId>>
 
 \* Writer.Close waits for every leaseholder's stream to drain; buffered samples are dropped
 CloseWriter(w) ==
   /\ wr[w].open /\ wr[w].phase = "idle" /\ ~it.open /\ Quiet(w)
-  /\ wr' = [wr EXCEPT ![w] = NoWriter]
+  /\ wr' = [wr EXCEPT ![w] = [NoWriter EXCEPT !.failed = wr[w].failed]]   \* (a refusal is remembered: NoRefusal)
   /\ res' = "ok" /\ UNCHANGED <<lease, meta, single, sdom, local, it, nextId>>
 
 \* ------------------------------------------------------------ iterator
@@ -309,7 +333,7 @@ IterAck ==
 KeySets == SUBSET (AllChan \cup {Unknown}) \ {{}}
 Next == \/ \E w \in Writers, g \in Node, keys \in KeySets, s \in Time, sy, au \in BOOLEAN : OpenWriter(w, g, keys, s, sy, au)
         \/ \E w \in Writers, gs \in SUBSET Groups, fr \in BOOLEAN, ts \in SUBSET Even : WriteReq(w, gs, fr, ts)
-        \/ \E w \in Writers, n \in Holders : LocalWrite(w, n) \/ LocalCommit(w, n)
+        \/ \E w \in Writers, n \in Holders : LocalWrite(w, n) \/ LocalCommit(w, n) \/ LocalCommitFail(w, n)
         \/ \E w \in Writers : WriteAck(w) \/ CommitReq(w) \/ CommitAck(w) \/ CloseWriter(w)
         \/ \E g \in Node, keys \in KeySets, a, b \in Time : IterOpen(g, keys, a, b)
         \/ \E n \in Node : IterResp(n)
@@ -317,32 +341,36 @@ Next == \/ \E w \in Writers, g \in Node, keys \in KeySets, s \in Time, sy, au \i
 Spec == Init /\ [][Next]_vars
 
 \* ------------------------------------------------------------ properties
-TypeOK == /\ res \in {"ok", "notfound", "invalid"}
+TypeOK == /\ res \in {"ok", "notfound", "invalid", "error"}
           /\ \A w \in Writers : wr[w].phase \in {"idle", "waitW", "waitC"}
 \* what the cluster holds for channel c at time t, over all nodes
 Held(c, t) == {local[n][c][t] : n \in Node} \ {0}
 \* C07 clause 2: with nothing in flight, the union over the nodes' stores is the single-node store
+NoRefusal == \A w \in Writers : wr[w].failed = {}
 LocationTransparency ==
-  Quiescent => \A c \in Stored : \A t \in Even : Held(c, t) = (IF single[c][t] = 0 THEN {} ELSE {single[c][t]})
+  (Quiescent /\ NoRefusal) => \A c \in Stored : \A t \in Even : Held(c, t) = (IF single[c][t] = 0 THEN {} ELSE {single[c][t]})
 \* ... and at no time does any node hold a sample the single-node store does not have
 NoPhantom == \A c \in Stored : \A t \in Even : Held(c, t) \subseteq {single[c][t]}
 \* C07 clause 1: samples are stored by the channel's leaseholder and by nobody else
 StoredAtLeaseholderOnly == \A n \in Node : \A c \in Stored : \A t \in Even : local[n][c][t] # 0 => lease[GroupOf(c)] = n
 \* C07 clause 4: Commit is acknowledged only when every involved leaseholder applied that commit
 CommitAckOnlyAfterAll ==
-  [][\A w \in Writers : (wr[w].phase = "waitC" /\ wr'[w].phase = "idle" /\ wr'[w].open) =>
+  [][\A w \in Writers : (wr[w].phase = "waitC" /\ wr'[w].phase = "idle" /\ wr'[w].open /\ ~wr'[w].err) =>
         \A n \in Involved(wr[w].keys) : wr[w].cseq[n] = wr[w].seq]_vars
 \* ... stated on data: once acknowledged, everything that writer committed is readable at its leaseholder
 AckedIsReadable ==
-  \A w \in Writers : (wr[w].open /\ wr[w].phase = "idle" /\ wr[w].acked = wr[w].seq /\ wr[w].seq > 0) =>
+  \A w \in Writers : (NoRefusal /\ wr[w].open /\ wr[w].phase = "idle" /\ wr[w].acked = wr[w].seq /\ wr[w].seq > 0) =>
      \A c \in wr[w].keys \cap Stored : \A t \in Even :
         single[c][t] # 0 => local[lease[GroupOf(c)]][c][t] = single[c][t]
+\* ... and a commit that some involved leaseholder refused is never acknowledged as a success
+AckNeverHidesFailure ==
+  [][\A w \in Writers : (wr[w].phase = "waitC" /\ wr'[w].phase = "idle" /\ wr'[w].open /\ wr[w].failed # {}) => wr'[w].err]_vars
 \* C07 clause 3: opening a writer or an iterator on a key that does not exist fails, without effect
 OpenFailsOnUnknownChannel ==
   [][/\ \A w \in Writers : (~wr[w].open /\ wr'[w].open) => wr'[w].keys \subseteq meta
      /\ (~it.open /\ it'.open) => it'.keys \subseteq meta]_vars
 \* the merged answer of an iterator is exactly the single-node store's read
-IterExact == [][(it.open /\ it.pend = {} /\ ~it'.open) =>
+IterExact == [][(NoRefusal /\ it.open /\ it.pend = {} /\ ~it'.open) =>
                    it.acc = ReadOf(single, it.keys, it.a, it.b)]_vars
 \* a Sync writer whose requests were all processed is released (fails with SkipAbsentPeers)
 NoStuckWriter == \A w \in Writers : (wr[w].phase # "idle" /\ Quiet(w)) => Fulfilled(w)
